@@ -293,7 +293,11 @@ def numpy_route(ctx, rng, k):
             if got.shape != a.shape or not np.array_equal(got.astype(np.int64), a):
                 ctx.fail(f'NumPy route: header array {c} ({desc["fields"].get(c, "default")}) does not read back', desc)
         t = int(rng.integers(n[0] * n[1]))
-        h = r.gen_trace_header(t)
+        try:
+            h = r.gen_trace_header(t)
+        except Exception as e:  # noqa
+            ctx.fail(f'NumPy route: gen_trace_header({t}) refused on a complete file: {type(e).__name__}: {str(e)[:100]}', desc)
+            return
         for c, a in want.items():
             if int(h[segyio.TraceField(c)]) != int(a[t // n[1], t % n[1]]):
                 ctx.fail(f'NumPy route: gen_trace_header({t})[{c}] wrong', desc)
